@@ -1,17 +1,21 @@
 (* C12 - correspondence entry point.  A case is a flat list of items (so that it can be
-   shrunk by dropping items): [Host n d] declares a configured service, [Do o] is an
-   operation.  The configuration is the list of Host items, wherever they stand.
+   shrunk by dropping items): [Host n d] declares a configured service, [Ghost n] an entry of the
+   node's service list that the services section does not define, [Do o] is an operation.  The
+   node's service list is the Host and Ghost items in order, wherever they stand; the hosted
+   services are its defined entries.
    The harness reports the ctrl.cmd messages received by the services sorted by service
    (stable), because the services run concurrently; the model's sends are sorted the same
    way before comparing. *)
 From Cell2V Require Import Common.Tac Common.ListX Common.AList C12.Model C12.Spec.
 
-Inductive item := Host (n : Z) (d : disp) | Do (o : op).
+Inductive item := Host (n : Z) (d : disp) | Ghost (n : Z) | Do (o : op).
 
-Definition cfg_of (l : list item) : config :=
-  flat_map (fun i => match i with Host n d => [(n, d)] | Do _ => [] end) l.
+(* the node's service list: Host = an entry the services section defines, Ghost = one it does not *)
+Definition list_of (l : list item) : nodelist :=
+  flat_map (fun i => match i with Host n d => [(n, Some d)] | Ghost n => [(n, None)] | Do _ => [] end) l.
+Definition cfg_of (l : list item) : config := defined (list_of l).
 Definition ops_of (l : list item) : list op :=
-  flat_map (fun i => match i with Do o => [o] | Host _ _ => [] end) l.
+  flat_map (fun i => match i with Do o => [o] | _ => [] end) l.
 
 Definition run_items (l : list item) : list obs := run (cfg_of l) (ops_of l).
 
